@@ -90,6 +90,15 @@ func (s *Store) kvsDeleteTreeTxn(tx WriteTxn, idx uint64, prefix string, entMeta
 	}
 
 	if deleted {
+		// Older tombstones below the prefix are subsumed by this delete. They
+		// must go: a list on a longer prefix (or, when the entire tree is
+		// deleted, on any prefix) finds no entries any more and would otherwise
+		// report the index of such an old tombstone - lower than the index it
+		// reported before - so a blocked query would miss this deletion.
+		// Without them the list falls back to the table index.
+		if _, err := tx.DeletePrefix(tableTombstones, indexID+"_prefix", prefix); err != nil {
+			return fmt.Errorf("failed removing subsumed tombstones: %s", err)
+		}
 		if prefix != "" { // don't insert a tombstone if the entire tree is deleted, all watchers on keys will see the max_index of the tree
 			if err := s.kvsGraveyard.InsertTxn(tx, prefix, idx, entMeta); err != nil {
 				return fmt.Errorf("failed adding to graveyard: %s", err)
